@@ -393,6 +393,8 @@ def run(report, index, tier):
     r033(report, g, M.lexmodel)
     rule_skeleton(report, index, 'R03.4',
                   'tree shape: definition skeleton == production RHS')
+    from .arrays import array_rule
+    array_rule(report, index, M, 'R03.4e', bound=8, reference=True)
     report.trusted_base += [
         'CPython ast', 'ply.yacc LALR construction (library use on '
         'extracted productions)', 'transcription of ply.yacc.parse_grammar']
